@@ -57,6 +57,8 @@ def parseOp (s : String) : Option Op :=
   | ["Q", k, skip, early] => do pure (.request (← parseKey k) (parseBool skip) (← parseHex early))
   | ["R", c, d] => do pure (.recv (← c.toNat?) (← parseHex d))
   | ["X", c, os] => do pure (.peerClose (← c.toNat?) (parseBool os))
+  | ["F", c] => do pure (.beginClose (← c.toNat?))
+  | ["H", c] => do pure (.hold (← c.toNat?))
   | ["D", j] => do pure (.read (← j.toNat?))
   | ["L", j] => do pure (.release (← j.toNat?))
   | ["C", j] => do pure (.close (← j.toNat?))
